@@ -243,3 +243,84 @@ func substituteOpaque(v interface{}) interface{} {
 	}
 	return v
 }
+
+// ShareSubtrees makes the document a DAG: up to two container slots are overwritten with a
+// reference to a container that already occurs elsewhere in the document (never an ancestor or
+// descendant, so no cycle arises). Documents assembled in memory, or decoded from formats with
+// aliases, look like this; every step of a path is defined on values, so sharing must not change
+// any result. The choice is a pure function of seed.
+func ShareSubtrees(doc interface{}, seed uint64) interface{} {
+	type slot struct {
+		path   []interface{}
+		parent interface{}
+		key    interface{}
+		val    interface{}
+	}
+	var slots []slot
+	var walk func(v interface{}, path []interface{})
+	walk = func(v interface{}, path []interface{}) {
+		switch t := v.(type) {
+		case map[string]interface{}:
+			keys := make([]string, 0, len(t))
+			for k := range t {
+				keys = append(keys, k)
+			}
+			for i := 1; i < len(keys); i++ {
+				for j := i; j > 0 && keys[j] < keys[j-1]; j-- {
+					keys[j], keys[j-1] = keys[j-1], keys[j]
+				}
+			}
+			for _, k := range keys {
+				p := append(append([]interface{}{}, path...), k)
+				switch t[k].(type) {
+				case map[string]interface{}, []interface{}:
+					slots = append(slots, slot{p, t, k, t[k]})
+				}
+				walk(t[k], p)
+			}
+		case []interface{}:
+			for i := range t {
+				p := append(append([]interface{}{}, path...), i)
+				switch t[i].(type) {
+				case map[string]interface{}, []interface{}:
+					slots = append(slots, slot{p, t, i, t[i]})
+				}
+				walk(t[i], p)
+			}
+		}
+	}
+	walk(doc, nil)
+	if len(slots) < 2 {
+		return doc
+	}
+	next := func(n int) int {
+		seed = seed*6364136223846793005 + 1442695040888963407
+		return int((seed >> 33) % uint64(n))
+	}
+	related := func(a, b []interface{}) bool {
+		n := len(a)
+		if len(b) < n {
+			n = len(b)
+		}
+		for i := 0; i < n; i++ {
+			if a[i] != b[i] {
+				return false
+			}
+		}
+		return true // one is a prefix of the other
+	}
+	for round := 0; round < 2; round++ {
+		s, d := slots[next(len(slots))], slots[next(len(slots))]
+		if related(s.path, d.path) {
+			continue
+		}
+		switch p := d.parent.(type) {
+		case map[string]interface{}:
+			p[d.key.(string)] = s.val
+		case []interface{}:
+			p[d.key.(int)] = s.val
+		}
+		break // one aliasing per document keeps "no cycle" trivially true
+	}
+	return doc
+}
